@@ -536,11 +536,10 @@ func toProto(fdesc protoreflect.FieldDescriptor, v starlark.Value) (protoreflect
 		}
 
 	case protoreflect.StringKind:
+		// A bytes value is not accepted for a string field: handing
+		// protoreflect a []byte for a string field (or map key) panics.
 		if s, ok := starlark.AsString(v); ok {
 			return protoreflect.ValueOfString(s), nil
-		} else if b, ok := v.(starlark.Bytes); ok {
-			// TODO(adonovan): allow bytes for string? Not friendly to a Java port.
-			return protoreflect.ValueOfBytes([]byte(b)), nil
 		}
 
 	case protoreflect.BytesKind:
